@@ -1,9 +1,18 @@
 ------------------------------- MODULE MCArmor -------------------------------
 EXTENDS Armor, Json
 (* GEN: the body shape per length, and the tolerant-variant matrix *)
-GenShape == (phase = "hdr" /\ failat = 0 /\ crcflag) =>
+(* a trivial counting behaviour n = 0, 1, .. MaxN used only to emit cases *)
+GInit == /\ n = 0 /\ crcflag = TRUE /\ failat = 0 /\ phase = "gen" /\ fed = 0 /\ pend = 0 /\ col = 0
+         /\ lines = <<>> /\ ncalls = 0 /\ faulted = FALSE /\ result = "none" /\ opads = 0
+GNext == /\ n < MaxN /\ n' = n + 1
+         /\ UNCHANGED <<phase, fed, pend, col, lines, ncalls, failat, faulted, result, crcflag, opads>>
+GSpec == GInit /\ [][GNext]_wvars
+GenShape == (phase = "gen") =>
               PrintT(<<"CASE", ToJson([kind |-> "shape", n |-> n, shape |-> Shape(n)])>>)
-GenVariants == (phase = "hdr" /\ failat = 0 /\ crcflag /\ n = 0) =>
+BigSizes == {65535, 65536, 65537, 98303, 98304, 262144, 524287, 1048575, 1048576, 1048577}
+GenBig == (phase = "gen" /\ n = 0) =>
+   \A b \in BigSizes : PrintT(<<"CASE", ToJson([kind |-> "shape", n |-> b, shape |-> Shape(b)])>>)
+GenVariants == (phase = "gen" /\ n = 0) =>
    \A v \in Variants : \A check \in BOOLEAN :
       PrintT(<<"CASE", ToJson([kind |-> "variant", v |-> v, check |-> check, expect |-> Expect(n, v, check)])>>)
 =============================================================================
